@@ -54,7 +54,7 @@ Section AddRxn.
     Core (prev ++ [SRxn ri]) r' acc' /\ Later r acc r' acc'.
   Proof.
     intros C F Hch HO Hattr i r' acc' HB.
-    destruct C as [Csok Cattr Cheld Cdom Creg CrR Ckeys Cdecl CkR Ccplx].
+    destruct C as [Csok Cattr Cheld Cdom Creg CrR Ckeys Cdecl CkR Ccplx Crot].
     pose proof (proj1 Csok) as I0. pose proof (ok_len _ _ (proj1 I0)) as Lc.
     pose proof (cls_of_lt ct cd cs cc cm cr CO) as Hlt.
     assert (Hneq : forall k, k <> KindR -> cr <> cls_of k).
@@ -95,6 +95,15 @@ Section AddRxn.
         eapply builtrxn_later; eauto.
     - intros n0 names0 sst0 Hin. rewrite decl_cplx_snoc in Hin. cbn [cplx_entry] in Hin. rewrite app_nil_r in Hin.
       destruct (Ccplx n0 names0 sst0 Hin) as [conc Hb]. exists conc. eapply builtcplx_later; eauto.
+    - intros n0 i0 o0 Hd Ho k0 Hk0. cbn [r_st r' hold heap] in Ho. rewrite heap_mk_new in Ho.
+      cbn [r_st r']. change (cget (hold ?s ?j) ?c) with (cget s c).
+      rewrite cget_mk_new_other by (apply (Hneq KindC); discriminate).
+      subst acc'. change (po_complexes (add_rxn cond acc i)) with (dict_of KindC (add_rxn cond acc i)) in Hd.
+      rewrite add_rxn_dict in Hd. cbn [dict_of] in Hd.
+      assert (Hl0 : i0 < length (heap (r_st r))) by
+        (destruct (reg_live ct _ _ n0 i0 I0 (Hlt KindC) (eq_trans (Creg KindC ltac:(discriminate) n0) Hd)) as [ox [Hox _]];
+         eapply hget_lt; eauto).
+      rewrite hget_old in Ho by lia. exact (Crot n0 i0 o0 Hd Ho k0 Hk0).
   Qed.
 
   (* the two signatures differ in both components *)
